@@ -179,7 +179,7 @@ func RunBatch(property string, p Profile, verifSeed uint64, from, to int, mandat
 				out.TargetCount++
 				if len(out.Violations) < 4 {
 					acts := r.Trace
-					if v.Oracle == "lv.converged" && r.HealAt >= 0 {
+					if (v.Oracle == "lv.converged" || v.Oracle == "lv.follower_catchup") && r.HealAt >= 0 {
 						acts = append([]Action(nil), r.Trace[:r.HealAt+1]...)
 					}
 					out.Violations = append(out.Violations, ViolRec{RunIndex: i, RunSeed: r.RunSeed, Profile: p.Name, Config: r.Config, Actions: acts, Violation: v, Digest: r.Digest})
